@@ -2,8 +2,8 @@
 C24 — Selector unify/extend/replace/nest/append obey their algebra (partial).
 
 Models: Sel/Unify.lean, Sel/Extend.lean (+ Sel/Nest.lean of the C19 family for nesting and
-compound append).  `unifySpec` / `nestSpec` = the specification, `unifyAsis` / `nestAsis` = the
-code as it is.  Extend / replace laws are proved for EVERY superselector test `S`, unifier `U`
+compound append).  `unifySpec` / `nestSpec` = the specification, `unifyAsis` = the code as it is;
+since d714329 the nesting code is `nestSpec`, the old code is `{ ampViaUnify := true }`.  Extend / replace laws are proved for EVERY superselector test `S`, unifier `U`
 and dedup `D` (list plumbing only).  Complex-selector unification (`unify_relbox`) is
 modelled and tied to the code by correspondence; no soundness theorem is claimed for it.
 -/
@@ -253,12 +253,13 @@ theorem append_eq_amp_suffix (a : SelSet) (c : Compound) (R : SelSet)
   simp only [resolveCompound, hbr, if_true, Compound.setBackref_roundtrip c hc]
   exact resolveOneList_of_append c a R h
 
-/-- **Refutation** for the code as it is (known finding C24-amp-via-unify): `selector.append(".a",
+/-- **Refutation** for the code before fix d714329 (flag `ampViaUnify`; finding C24-amp-via-unify, now
+fixed — the code today is the `nestSpec` path of `append_eq_amp_suffix`): `selector.append(".a",
 ".a")` is `.a.a` but the rule `.a { &.a {…} }` emits `.a`. -/
 theorem append_asis_refuted :
     (fnAppend [.leaf (Compound.ofClass "a")] [.leaf (Compound.ofClass "a")]).map (SelSet.print false)
         = some ".a.a".toList
-    ∧ SelSet.print false (ruleNest nestAsis [.leaf (Compound.ofClass "a")] (ampSuffix (Compound.ofClass "a")))
+    ∧ SelSet.print false (ruleNest { ampViaUnify := true } [.leaf (Compound.ofClass "a")] (ampSuffix (Compound.ofClass "a")))
         = ".a".toList := by decide
 
 end C24
